@@ -84,7 +84,7 @@ class Expect(object):
     def __init__(self):
         self.must = {}     # (id, field) -> (set(values), label)
         self.may = []      # (id or None, field or None or frozenset)
-        self.notes = []
+        self.warn = []     # reasons why a diagnostic is expected (role annotation the signature does not permit)
 
     def m(self, i, f, v, label):
         k = (i, f)
@@ -162,7 +162,7 @@ def _props_of_class(cls):
     return [e['id'] for e in ELEMENTS.values() if e['kind'] == 'property' and e['cls'] == cls]
 
 
-def expect(case, vb, va, fva):
+def expect(case, vb, va, fva, fvb):
     """vb / va: baseline and annotated views, fva = all_fields(va) (the annotated side is consulted only
     for the *names* and multiplicity of function elements, which role annotations may change)."""
     ex = Expect()
@@ -288,24 +288,41 @@ def expect(case, vb, va, fva):
                         else:
                             ex.y(v['id'], None)
             elif name == 'constructor':
-                if kind in FN and kind != 'ctor':
+                if kind in FN and kind != 'ctor' and len(has_role[b['name']]) == 1:
                     cat = TYPEINFO.get(e['ret'], (None, None))[1]
+                    bshape = fvb[i].get('shape')
                     if cat in ('class', 'boxed'):
                         ex.m(i, 'tag', 'constructor', label)
                         ex.m(i, 'owner', TYPEINFO[e['ret']][0], label)
                         ex.m(i, 'count', 1, label)
+                        # a constructor has no instance parameter: every C parameter is an ordinary one
+                        ex.m(i, 'shape', (False, bshape[1] + (1 if bshape[0] else 0)), label)
                         _role_may(ex, e)
                     elif cat == 'plain':
                         # a plain C struct is neither a class nor a registered boxed type: whether the
                         # signature "permits" a constructor there is not documented
                         ex.y(i, None)
+                    else:
+                        ex.warn.append('(constructor) on %s, which does not return a type of the namespace' % b['name'])
+                elif kind in FN and kind != 'ctor':
+                    ex.y(i, None)
+                    _role_may(ex, e)
             elif name == 'method':
-                if kind in FN:
+                if kind in FN and len(has_role[b['name']]) == 1:
                     if e['first'] in TYPEINFO:
+                        bshape = fvb[i].get('shape')
                         ex.m(i, 'tag', 'method', label)
                         ex.m(i, 'owner', TYPEINFO[e['first']][0], label)
                         ex.m(i, 'count', 1, label)
+                        # the first C parameter becomes the instance parameter
+                        ex.m(i, 'shape', (True, bshape[1] - (0 if bshape[0] else 1)), label)
                         _role_may(ex, e)
+                    elif kind != 'ctor':
+                        # (a function that is a constructor by its name stays one; no diagnostic is promised there)
+                        ex.warn.append('(method) on %s, whose first parameter is not a type of the namespace' % b['name'])
+                elif kind in FN:
+                    ex.y(i, None)
+                    _role_may(ex, e)
             else:
                 raise ValueError('unknown item %r' % name)
 
@@ -340,19 +357,25 @@ def expect(case, vb, va, fva):
 
     # ---- rename-to --------------------------------------------------------------------------
     valid = []
+    selfs = []
     ex.rename_exempt = set()
     for f, t in renames:
         te = ELEMENTS.get(t)
         if te is None or te['kind'] not in FN:
             continue                 # names nothing (or not a function): no documented effect
         if te is f:
+            # renaming a function to itself: no partner, nothing documented
             ex.y(f['id'], ('@shadows', '@shadowed-by'))
             ex.rename_exempt.add(f['id'])
+            selfs.append(f)
             continue
         valid.append((f, te))
     for f, te in valid:
         others = [(g, ue) for g, ue in valid if not (g is f and ue is te)]
-        competing = any(ue is te or ue is f or g is te for g, ue in others)
+        competing = any(ue is te or ue is f or g is te for g, ue in others) or \
+            any(g is f or g is te for g in selfs)
+        if any(g is f or g is te for g in selfs):
+            ex.rename_exempt.update((f['id'], te['id']))
         clones = len(va.get(f['id'], ())) != 1 or len(va.get(te['id'], ())) != 1
         if clones:
             # a function that exists twice (moved-to compatibility copy): the pair rule has no single partner
@@ -369,7 +392,7 @@ def expect(case, vb, va, fva):
 
 def _role_may(ex, e):
     i = e['id']
-    ex.y(i, ('@name', 'sig', '@moved-to', '@introspectable', '@glib:set-property', '@glib:get-property',
+    ex.y(i, ('@name', 'sig', 'shape', '@moved-to', '@introspectable', '@glib:set-property', '@glib:get-property',
              '@shadows', '@shadowed-by'))
     if e['cls']:
         for p in _props_of_class(e['cls']):
